@@ -36,9 +36,7 @@ theorem resolveUsage_mem {ix : List Def} {imp : Path → String → Bool} {u : U
     (h : resolveUsage ix imp u = some d) : d ∈ ix ∧ d.name = u.name := by
   unfold resolveUsage at h
   split at h
-  · split at h
-    · have := resolveF_mem h; exact ⟨this.1, this.2.1⟩
-    · exact resolve_mem h
+  · have := resolveF_mem h; exact ⟨this.1, this.2.1⟩
   · exact resolve_mem h
 
 /-! ### order independence -/
